@@ -608,9 +608,9 @@ func vpC22WriterProbe(pool [][]byte, extra int) (bad, total int, first, note str
 	capacity := procs * 2048
 	codecs := vpC22Codecs()
 	gz, fl := codecs[0], codecs[1]
-	warm := &vpC22Call{in: pool[0], level: 1, via: 4}
+	warm := &vpC22Call{in: pool[0], level: 0, via: 4}
 	gz.runAny(warm)
-	const level = 1
+	const level = 0
 	victim := &vpC22Call{in: pool[1%len(pool)], level: level, via: 4}
 	var rec vpC22RecWriter
 	sw := acquireStacklessGzipWriter(&rec, level)
@@ -729,16 +729,16 @@ func TestVP_C22_BurstWriter(t *testing.T) {
 		}
 		for _, n := range sizes {
 			over := n > capacity
-			calls := vpC22MakeCalls(codecs[0], n, pool, []int{-2, 0, -2, 0, 1}, salt)
+			calls := vpC22MakeCalls(codecs[0], n, pool, []int{-2, 0, 0, -2}, salt)
 			for i, call := range calls {
 				call.via = 4
 				switch {
 				case i%2 == 1:
 					call.c = codecs[1]
 				case i%128 == 6:
-					call.c, call.level = codecs[2], int(salt%7)-1 // brotli -1..5
-				case i%128 == 8:
-					call.c, call.level = codecs[3], 1+int(salt%2) // zstd 1..2
+					call.c, call.level = codecs[2], int(salt%4)-1 // brotli -1..2
+				case i%1024 == 8:
+					call.c, call.level = codecs[3], 1 // zstd fastest
 				}
 			}
 			if over && vpKnownOpen(key) {
